@@ -450,8 +450,8 @@ def walk_wildcard(
     for template in node_template:
         type_matcher = template if isinstance(template, type) else type(template)
         if isinstance(template, Wildcard):
-            # A wildcard is no node type, any node may match it
-            type_matcher = ast.AST
+            # A wildcard is no node type, any code that has a text of its own may match it
+            type_matcher = (ast.stmt, ast.expr)
         nodes = itertools.chain.from_iterable(
             children
             for child_type, children in types_in_scope.items()
@@ -932,8 +932,11 @@ def get_charnos(node: ast.AST, source: str, keep_first_indent: bool = False) -> 
     )
 
     code = source[start_charno:end_charno]
-    # The spaces of the literal parts of an f-string are part of the string
-    is_string = isinstance(node, ast.Constant) and isinstance(node.value, str)
+    # The spaces of the literal parts and of the format specifications of an f-string are part of
+    # the string
+    is_string = isinstance(node, ast.JoinedStr) or (
+        isinstance(node, ast.Constant) and isinstance(node.value, str)
+    )
     if code and code[0] == " " and not is_string:
         whitespace = max(re.findall(r"\A^ *", code), key=len)
         start_charno += len(whitespace)
